@@ -10,6 +10,7 @@ import Bp7.Model.Json
 import Bp7.Model.TsGen
 import Bp7.Model.Ffi
 import Bp7.Spec.Rfc9171
+import Bp7.Spec.Admin
 import Bp7.Driver.SecOps
 import Bp7.Driver.CliOps
 namespace Bp7.Driver
@@ -28,6 +29,8 @@ def eidAcc (e : Eid) : String :=
   "node=" ++ showOptBytes e.node ++ " nodeid=" ++ showOptBytes e.nodeId
   ++ " svc=" ++ showOptBytes e.serviceName ++ " isnode=" ++ showBool e.isNodeId
   ++ " valid=" ++ showBool (eidOk e) ++ " str=" ++ hexOfBytes (printEid e)
+  ++ " nonsingle=" ++ showBool (match e with | .dtn _ ssp => (match dtnServiceName ssp with | some sv => startsWith [126] sv | none => false) | _ => false)
+  ++ " scheme=" ++ (match e with | .ipn _ _ _ => "ipn" | _ => "dtn")
 
 /-- C11 operation sequences: `seq <bundle> ; op ; op ...` -/
 def applyOp (b : Bundle) : List String → Option Bundle
@@ -78,6 +81,8 @@ def ffiNewDefault (src dst : Bytes) (life : Nat) (payload : Bytes) (clock : Nat)
 def parseFfiCall (c : String) : Option Ffi.Call :=
   match c.splitOn ":" with
   | ["T"] => some .bufferTest
+  | ["R", h] => (bytesOfHex h).map .rndBundle
+  | ["W"] => some .working
   | ["D", h] => (bytesOfHex h).map .fromCbor
   | ["N", s, d, l, p, c] => do
     let b ← ffiNewDefault (← bytesOfHex s) (← bytesOfHex d) (← l.toNat?) (← bytesOfHex p) (← c.toNat?)
@@ -224,6 +229,10 @@ def answer (line : String) : String :=
     match bytesOfHex h with
     | some s => resStr showAdmin (decodeAdmin s)
     | none => "bad-op"
+  | "spec.adm" :: rest =>
+    match parseAdmin rest with
+    | some r => "ok " ++ hexOfBytes (Spec.encItem (C12.Spec.adminItem r))
+    | none => "bad-op"
   | "adm.enc" :: rest =>
     match parseAdmin rest with
     | some r => "ok " ++ hexOfBytes (encAdmin r) ++ " " ++ resStr showAdmin (decodeAdmin (encAdmin r))
@@ -286,6 +295,27 @@ def answer (line : String) : String :=
     | some (b, []), some src, some crc, some pos, some reason, some now, some ts, some sq =>
       resStr showBundle (newStatusReportBundle b src crc pos reason now ts sq)
     | _, _, _, _, _, _, _, _ => "bad-op"
+  | "build" :: pl :: mode :: rest =>
+    -- PrimaryBlockBuilder / CanonicalBlockBuilder (mode b) or the new_*_block helpers (mode h) /
+    -- BundleBuilder (with `.payload(x)` when `pl` is not "n")
+    match parseBundle rest, (if pl == "n" then some none else (bytesOfHex pl).map some) with
+    | some (b, []), some pay =>
+      if b.primary.dst == Eid.dtnNone then "err primary"
+      else
+        let p := { b.primary with version := 7 }
+        let helper (c : Canon) : Canon :=
+          match c.data with
+          | .data d => { btype := 1, num := 1, flags := c.flags, crc := .no, data := .data d }
+          | .age a => { btype := 7, num := c.num, flags := c.flags, crc := .no, data := .age a }
+          | .hop l _ => { btype := 10, num := c.num, flags := c.flags, crc := .no, data := .hop l 0 }
+          | .prev e => { btype := 6, num := c.num, flags := c.flags, crc := .no, data := .prev e }
+          | _ => c
+        let cs0 := if mode == "h" then b.canon.map helper else b.canon
+        let cs := cs0 ++ (match pay with | some d => [newPayloadBlock 0 d] | none => [])
+        (match buildBundle p cs with
+         | .ok r => "ok " ++ showBundle r
+         | _ => "err payload")
+    | _, _ => "bad-op"
   | "seq" :: rest =>
     match parseBundle rest with
     | some (b, ops) =>
